@@ -14,21 +14,21 @@ KIND = "store"
 JUDGE = "StoreJudge"
 
 
-def _gen(ctx, n, length, seed):
-    cfgp = os.path.join(ctx._speccopy(), "StoreSim_run.cfg")
-    open(cfgp, "w").write(open(os.path.join(vlib.SPEC, "StoreSim.cfg")).read().replace("HistLen = 20", "HistLen = %d" % length))
-    out, st = ctx.tlc("Store", "StoreSim_run", workers=1, args=["-simulate", "num=%d" % n, "-depth", str(length + 3), "-seed", str(seed)], timeout=1200)
+def _gen(ctx, n, length, seed, mod="Store"):
+    cfgp = os.path.join(ctx._speccopy(), mod + "Sim_run.cfg")
+    open(cfgp, "w").write(open(os.path.join(vlib.SPEC, mod + "Sim.cfg")).read().replace("HistLen = 20", "HistLen = %d" % length))
+    out, st = ctx.tlc(mod, mod + "Sim_run", workers=1, args=["-simulate", "num=%d" % n, "-depth", str(length + 3), "-seed", str(seed)], timeout=1200)
     hs = ctx.emitted(out, "HIST")
     if len(hs) < n // 2:
-        raise Machinery("Store simulation produced %d histories, expected %d" % (len(hs), n))
-    ctx.cov["tlc_runs"].append({"module": "Store", "cfg": "StoreSim", "histories": len(hs), "length": length, "wall_s": st["wall_s"]})
-    p = ctx.path("gen", "store-hists-%d.ndjson" % seed)
+        raise Machinery("%s simulation produced %d histories, expected %d" % (mod, len(hs), n))
+    ctx.cov["tlc_runs"].append({"module": mod, "cfg": mod + "Sim", "histories": len(hs), "length": length, "wall_s": st["wall_s"]})
+    p = ctx.path("gen", "%s-hists-%d.ndjson" % (mod.lower(), seed))
     vlib.write_ndjson(p, [{"ops": h} for h in hs])
     return p, len(hs)
 
 
-def _record(ctx, binp, hp, conc, of):
-    r = ctx.run([binp, "-mode", "store", "-in", hp, "-out", of, "-conc", conc, "-seed", str(ctx.seed), "-scratch", ctx.scratch], timeout=1800)
+def _record(ctx, binp, hp, conc, of, mode="store"):
+    r = ctx.run([binp, "-mode", mode, "-in", hp, "-out", of, "-conc", conc, "-seed", str(ctx.seed), "-scratch", ctx.scratch], timeout=1800)
     return json.loads(r.stdout.strip().splitlines()[-1])["recorded"]
 
 
@@ -139,7 +139,8 @@ def collect(ctx):
                     raise Machinery("re-execution observed something different for %s" % sig)
                 obs = json.loads(line)
                 hist = vlib.read_ndjson(hp)[obs["hi"]]
-                g["record"] = {"case": {"kind": KIND, "history": hist, "conc": conc, "seed": ctx.seed, "srv": obs["srv"], "step": obs["si"]}, "observed": obs}
+                g["record"] = {"case": {"kind": KIND, "sub": "store", "history": hist, "conc": conc, "seed": ctx.seed, "srv": obs["srv"], "step": obs["si"]}, "observed": obs}
+    total += collect_sync(ctx, sigs, universes)
     return sigs, universes, total
 
 
@@ -148,12 +149,125 @@ def replay(ctx, rp):
     case = rec["record"]["case"]
     binp = ctx.go_build("clirec")
     hp = ctx.path("gen", "replay-store.ndjson")
-    vlib.write_ndjson(hp, [case["history"]])
     of = ctx.path("obs", "store-replay.ndjson")
-    _record(ctx, binp, hp, case["conc"], of)
-    rej, _ = ctx.judge(JUDGE, [of], par=1)
+    if case.get("sub") == "sync":
+        # keep the history's index (the responder's layout rotates with it)
+        vlib.write_ndjson(hp, [{"ops": []}] * case.get("hi", 0) + [case["history"]])
+        _record(ctx, binp, hp, case["conc"], of, mode="sync")
+        rej, _ = ctx.judge("SyncJudge", [of], par=1)
+    else:
+        vlib.write_ndjson(hp, [case["history"]])
+        _record(ctx, binp, hp, case["conc"], of)
+        rej, _ = ctx.judge(JUDGE, [of], par=1)
     hit = sorted({s for _, _, s in rej if s == "C10 " + rec["signature"]})
     for s in hit:
         print("VIOLATION property=C10 replay=%s signature=%s" % (rp, s[4:]))
     print("REPLAY property=C10 rejected=%d" % len(hit))
     return 1 if hit else 0
+
+
+# ---------------------------------------------------------------------------------------------------------------- sync histories
+def _corrupt_sync(o, rnd):
+    if o["op"]["op"] != "sync":
+        return None
+    c = copy.deepcopy(o)
+    ch = rnd.randrange(7)
+    if ch == 0:
+        c["req"]["tok"] += 1
+    elif ch == 1:
+        c["req"]["lim"] = c["req"]["lim"] + 1
+    elif ch == 2:
+        c["res"]["err"] = not c["res"]["err"]
+    elif ch == 3 and not o["res"]["err"]:
+        c["res"]["tok"] += 1
+    elif ch == 4 and o["res"]["upd"]:
+        c["res"]["upd"][0]["e"] += 1
+    elif ch == 5 and o["res"]["del"]:
+        c["res"]["del"] = c["res"]["del"][1:]
+    elif ch == 6 and o["rep"]:
+        c["rep"] = c["rep"][1:]
+    elif ch == 6:
+        c["rep"] = [{"n": "o9", "e": 1}]
+    else:
+        c["req"]["level"] = "infinite"
+    return c
+
+
+def collect_sync(ctx, sigs, universes):
+    q = ctx.quick()
+    ctx.model_check("Sync", "Sync", workers=4, timeout=900)
+    binp = ctx.go_build("clirec")
+    plans = [(40, 24, "hostile"), (30, 24, "blank")] if q else [(300, 30, "hostile"), (300, 30, "blank"), (200, 30, "plain"), (60, 150, "hostile")]
+    files, meta, total = [], {}, 0
+    for i, (n, length, conc) in enumerate(plans):
+        hp, nh = _gen(ctx, n, length, ctx.seed * 100 + 80 + i, mod="Sync")
+        of = ctx.path("obs", "sync-%d-%s.ndjson" % (i, conc))
+        nrec = _record(ctx, binp, hp, conc, of, mode="sync")
+        files.append(of)
+        meta[of] = (hp, conc)
+        total += nrec
+        universes.append({"universe": "synchronisation histories (carddav.Client.SyncCollection against an independent RFC 6578 responder)", "concretisation": conc,
+                          "histories": nh, "length": length, "steps": nrec})
+        ctx.cov["traces_validated_against_impl"] += nh
+        log("[F2] sync histories %s: %d histories, %d observations" % (conc, nh, nrec))
+    rej, _ = ctx.judge("SyncJudge", files)
+    seen = set()
+    for f in files:
+        for o in vlib.read_ndjson(f):
+            if o["k"] == "ystep" and o["op"]["op"] == "sync":
+                r = o["res"]
+                seen.add("err" if r["err"] else "ok")
+                if r["upd"]:
+                    seen.add("upd")
+                if r["del"]:
+                    seen.add("del")
+                if o["req"]["tok"] > 0:
+                    seen.add("incremental")
+                if o["req"]["lim"] > 0 and not r["err"]:
+                    seen.add("limited-ok")
+    need = {"err", "ok", "upd", "del", "incremental", "limited-ok"}
+    if need - seen:
+        raise Machinery("sync histories never exercised %s" % sorted(need - seen))
+    rnd = random.Random(ctx.seed + 7)
+    badlines = {(f, ln) for f, ln, _ in rej}
+    rows = vlib.read_ndjson(files[0])
+    can, want = [], set()
+    for i, o in enumerate(rows):
+        c = None
+        if o["k"] == "ystep" and (files[0], i + 1) not in badlines and rnd.random() < 0.3 and len(want) < 300:
+            c = _corrupt_sync(o, rnd)
+        if c is not None and c != o:
+            can.append(c)
+            want.add(i + 1)
+        else:
+            can.append(o)
+    if not want:
+        raise Machinery("no sync canaries could be built")
+    cf = ctx.path("canary", "sync.ndjson")
+    vlib.write_ndjson(cf, can)
+    crej, _ = ctx.judge("SyncJudge", [cf], par=1)
+    got = {ln for _, ln, _ in crej}
+    ctx.cov["canaries_total"] += len(want)
+    ctx.cov["canaries_rejected"] += len(got & want)
+    if want - got:
+        ex = can[sorted(want - got)[0] - 1]
+        raise Machinery("SyncJudge accepted %d of %d corrupted steps, e.g. %s" % (len(want - got), len(want), json.dumps(ex)[:600]))
+    if rej:
+        again = {}
+        for f, ln, s in rej:
+            sig = s[4:]
+            g = sigs.setdefault(sig, {"count": 0, "record": None})
+            g["count"] += 1
+            if g["record"] is None:
+                hp, conc = meta[f]
+                if f not in again:
+                    f2 = f + ".again"
+                    _record(ctx, binp, hp, conc, f2, mode="sync")
+                    again[f] = open(f2).read().splitlines()
+                line = open(f).read().splitlines()[ln - 1]
+                if again[f][ln - 1] != line:
+                    raise Machinery("re-execution observed something different for %s" % sig)
+                obs = json.loads(line)
+                hist = vlib.read_ndjson(hp)[obs["hi"]]
+                g["record"] = {"case": {"kind": KIND, "sub": "sync", "history": hist, "hi": obs["hi"], "conc": conc, "seed": ctx.seed, "step": obs["si"]}, "observed": obs}
+    return total
